@@ -31,8 +31,9 @@ ASSUMPTIONS = [
     "failed is legitimately re-derived from its cached single reduction, and an error handled by an enclosing `catch` is "
     "legitimately replayed through catch's own documented cache of the recovery expression",
     "threads are joined under the job that forked them (otherwise the forking ancestor has legitimately finished)",
-    "programs as in C01 (no subrun), error leaves at every depth; two consecutive executions on one in-memory backend under the "
-    "controlled executor with a seeded completion order",
+    "programs as in C01, error leaves at every depth; two consecutive executions on one in-memory backend under the "
+    "controlled executor with a seeded completion order; plus failing sub-workflows run through subrun(e, new_execution=b) "
+    "twice on one file backend with real thread executors (execution counter: the raising leaves' own call log)",
 ]
 RULE = ("generated programs with raising leaves at any depth (C01 generator, error probability 0.15-0.4, plus a corpus of failing "
         "shapes); each is executed twice on one backend. Checked per execution: outcome admissible for the model; if run raised "
@@ -49,7 +50,11 @@ LEVEL_TEXT = ("Proved in Lean, all full strength for the modelled forms, every t
               "the lookup model: error_only_from_cse, cse_needs_same_execution, not_replayed / not_replayed_async (for every "
               "backend content and all cache options, a lookup in an execution that has not yet run the call never makes the job "
               "cached with an error).")
-LEVEL_NOTE = ("The recording of FAILED job rows and the event-loop path reject_job -> parent promise are not in the Lean model (the "
+LEVEL_NOTE = ("Finding fixed by findings_proposed/C12-subrun-error-recorded-as-success.fix.diff: a failure below subrun(e, new_execution="
+              "False) came back inside a successful _subrun_root_task result, was recorded as a success and replayed by ultimate "
+              "reduction in the next execution (not an ErrorValue lookup, hence outside not_replayed; the mechanism is C38."
+              "subrun_shallow_replays_ultimate); the Lean model of subrun mirrors the repaired code (the task fails). "
+              "The recording of FAILED job rows and the event-loop path reject_job -> parent promise are not in the Lean model (the "
               "big-step relation has no jobs); they are checked on the real code only (Job rows read back). 'The workflow stops' is "
               "observed as run() raising under the controlled executor without further completions. Which of several failing "
               "siblings' errors is raised is timing dependent by design; any of them is accepted. not_swallowed_* is proved for "
@@ -256,6 +261,64 @@ def flush_lookups(ctx, pending):
 
 
 STALE = "C12-stale-completion-event-crashes-next-execution"
+SUBRUN_REPLAY = "C12-failure-under-extended-subrun-replayed-from-cache"
+
+
+def subrun_corpus():
+    from props import _evallib as L
+    return {
+        "sub-leaf": L.raiser("V", 101),
+        "sub-deep": L.fail_after(2, "K"),
+        "sub-in-args": L.add(L.inc(L.raiser("L", 102)), b=L.inc(1)),
+        "sub-in-list": [L.inc(1), L.fail_after(1, "S")],
+        "sub-shallow": L.inc(L.s_raiser("Z", 103)),
+        "sub-ok": L.twice(1),
+    }
+
+
+def run_subrun(ctx, G, R, name, e, sx, reply, ne, cache=True):
+    """subrun(e, new_execution=ne) twice on one file backend (a new Scheduler object each time, real thread executors);
+    execution counter = the raising leaves' own log.  A failure under a sub-scheduler is a failed call like any other:
+    the later execution must run it again."""
+    from redun.scheduler import subrun
+
+    from props import C38
+    from props import _evallib as L
+    outs, has_unk = G.parse_outs(reply)
+    box = C38.Box(R)
+    try:
+        outcomes, ran = [], []
+        for k in (1, 2):
+            sched = box.scheduler()
+            del L.CALL_LOG[:]
+            o, _ = R.run_free(subrun(R.clone(e), executor="default", new_execution=ne), sched=sched, timeout=90, cache=cache)
+            outcomes.append(o)
+            ran.append(list(L.CALL_LOG))
+        case = {"program": name, "expr": sx, "new_execution": ne, "cache": cache, "subrun": True,
+                "leaf_calls": [len(ran[0]), len(ran[1])]}
+        for k, o in enumerate(outcomes, 1):
+            if o not in outs and not has_unk:
+                ctx.violation("C12-subrun-outcome-differs", "run through subrun does not raise the error the rules prescribe",
+                              case=dict(case, execution=k), expected=sorted(map(G.show, outs)), actual=G.show(o))
+        o2 = outcomes[1]
+        if o2[0] == "err":
+            leaf = [c for c in ran[1] if "%s-%s" % (c[1], c[2]) == o2[2]]
+            raised_by_leaf = any("%s-%s" % (c[1], c[2]) == o2[2] for c in ran[0] + ran[1])
+            if raised_by_leaf and not leaf:
+                ctx.violation(SUBRUN_REPLAY, "execution 2 raises the error of a failed call without executing that call again: the "
+                              "failure was replayed from the backend cache (the sub-scheduler's failure was recorded as a successful "
+                              "subrun_root_task result)", case=dict(case, execution=2),
+                              expected="the raising task runs again in execution 2", actual="0 executions in execution 2",
+                              kind="history")
+            if raised_by_leaf:
+                ctx.count("subrun-failure", "ne=%s: failed leaf %s in execution 2" % (ne, "re-executed" if leaf else "NOT re-executed"))
+            else:
+                ctx.count("subrun-failure", "ne=%s: error not raised by a logged leaf" % ne)
+        ctx.case(key=("subrun", sx, ne, cache) if outcomes[0][0] == "err" else None, mode="subrun", outcome1=outcomes[0][0],
+                 outcome2=outcomes[1][0], sample={"program": name, "expr": sx[:200], "new_execution": ne,
+                                                  "leaf_calls": [len(ran[0]), len(ran[1])]})
+    finally:
+        box.close()
 
 
 def run_same_scheduler(ctx, G, R, name, expr, sx, reply, seed):
@@ -441,6 +504,23 @@ def run(ctx):
         if i % 3 == 0 or name in ("in-list", "two-different", "same-call-twice"):
             run_same_scheduler(ctx, G, R, name, e, sx, rep, rng.getrandbits(30))
     flush_lookups(ctx, pending)
+    # failures below a sub-scheduler (file backend, real executors)
+    sub = [(n, e, G.to_sx(e)) for n, e in subrun_corpus().items()]
+    for i in range(ctx.n(4, 40)):
+        prng = random.Random(base * 3 + i)
+        gen = G.Gen(prng, p_err=0.4, max_fan=2)
+        for _ in range(30):
+            try:
+                e = gen.program(2)
+                sub.append(("s%d" % i, e, G.to_sx(e)))
+                break
+            except G.Unsupported:
+                pass
+    reps = ctx.model("C01", ["(eval i%d %s)" % (FUEL, sx) for _, _, sx in sub])
+    for i, ((name, e, sx), rep) in enumerate(zip(sub, reps)):
+        run_subrun(ctx, G, R, name, e, sx, rep, ne=False)
+        if i % 3 == 0:
+            run_subrun(ctx, G, R, name, e, sx, rep, ne=True)
 
 
 def replay(ctx, case):
@@ -455,6 +535,9 @@ def replay(ctx, case):
     rep = ctx.model("C01", ["(eval i%d %s)" % (FUEL, sx2)])[0]
     print("replay program:", sx2[:500])
     print("model outcomes:", rep[:500])
+    if c.get("subrun"):
+        return run_subrun(ctx, G, R, c.get("program", "replay"), e, sx2, rep, ne=bool(c.get("new_execution")),
+                          cache=bool(c.get("cache", True)))
     if c.get("same_scheduler"):
         return run_same_scheduler(ctx, G, R, c.get("program", "replay"), e, sx2, rep, c.get("schedule_seed", 0))
     pending = []
